@@ -352,6 +352,48 @@ def parseLogs : Nat → List String → Option (List (Log × Nat × Nat × Optio
     | _, _, _, _ => none
   | _, _ => none
 
+/-- the part of a `race` / `dist` line after the groups: `L n (log lat outcome contact|-)* D d R t err n scts…` -/
+def raceTail (gs : List (Group × List Log)) (ts : List String) : String :=
+  match ts with
+  | "L" :: nl :: rest =>
+    match parseNat? nl with
+    | none => "bad-op"
+    | some nl =>
+      match parseLogs nl rest with
+      | some (ls, "D" :: d :: "R" :: rt :: re :: ns :: rest) =>
+        match parseNat? d, parseNat? rt, parseBool? re, parseNat? ns with
+        | some d, some rt, some re, some ns =>
+          match takeNats ns rest with
+          | some (scts, _) =>
+            let cfg : Cfg := gs.map (·.1)
+            let sess : Grp → List Log := fun g => match gs.find? (fun p => p.1.name == g) with
+              | some p => p.2
+              | none => []
+            let look (l : Log) := ls.find? (fun p => p.1 == l)
+            let sc : Scn := {
+              run := ⟨cfg, sess⟩, ps := parallelNums cfg,
+              script := fun l => match look l with
+                | some p => (p.2.1, p.2.2.1)
+                | none => (1, 1),
+              deadline := d,
+              contact := fun l => match look l with
+                | some p => p.2.2.2
+                | none => none,
+              nContacts := (ls.filter fun p => p.2.2.2.isSome).length,
+              obsTime := rt, obsErr := re, obsScts := sortNat scts }
+            let sim0 : Sim := { st := St.init sc.run, remaining := sess, fired := fun _ => 0, inflight := [], retAt := none, contacts := 0 }
+            -- groups with an empty session return at once; with no group at all GetSCTs returns at once
+            let start : Option Sim :=
+              if (names cfg).isEmpty then (app sc sim0 .collect).map fun s => { s with retAt := some 0 }
+              else loopChecks sc 0 sim0 ((dedup (names cfg)).filter fun g => sessLen sc g == 0)
+            match start with
+            | some s => if simulate sc s then "accept" else "reject"
+            | none => "reject-start"
+          | none => "bad-op"
+        | _, _, _, _ => "bad-op"
+      | _ => "bad-op"
+  | _ => "bad-op"
+
 def handleRace (ts : List String) : String :=
   match ts with
   | "G" :: ng :: rest =>
@@ -359,44 +401,142 @@ def handleRace (ts : List String) : String :=
     | none => "bad-op"
     | some ng =>
       match parseGroups ng rest with
-      | some (gs, "L" :: nl :: rest) =>
-        match parseNat? nl with
+      | some (gs, rest) => raceTail gs rest
+      | none => "bad-op"
+  | _ => "bad-op"
+
+/-! ### `dist`: `Distributor.AddChain` / `AddPreChain`: compatibility filter, policy groups, then the race -/
+
+def parseInts : Nat → List String → Option (List Int × List String)
+  | 0, rest => some ([], rest)
+  | n + 1, t :: rest =>
+    match parseInt? t, parseInts n rest with
+    | some v, some (vs, r) => some (v :: vs, r)
+    | _, _ => none
+  | _, _ => none
+
+/-- one log of the list: `id google status ia ib|- - rootsKnown k r…` (status: 1 pending, 2 qualified, 3 usable, …) -/
+structure DLog where
+  info : LogInfo
+  status : Nat
+
+def parseDLogs : Nat → List String → Option (List DLog × List String)
+  | 0, rest => some ([], rest)
+  | n + 1, id :: g :: st :: ia :: ib :: rk :: k :: rest =>
+    match parseNat? id, parseBool? g, parseNat? st, parseBool? rk, parseNat? k with
+    | some id, some g, some st, some rk, some k =>
+      match takeNats k rest with
+      | some (rs, rest) =>
+        let iv : Option (Int × Int) := match parseInt? ia, parseInt? ib with
+          | some a, some b => some (a, b)
+          | _, _ => none
+        match parseDLogs n rest with
+        | some (ls, rest) => some (⟨⟨id, g, st == 3, iv, if rk then some rs else none⟩, st⟩ :: ls, rest)
+        | none => none
+      | none => none
+    | _, _, _, _, _ => none
+  | _, _ => none
+
+def handleDist (ts : List String) : String :=
+  match ts with
+  | pol :: dis :: "PRE" :: isPre :: asPre :: "D6" :: rest =>
+    match parseBool? dis, parseBool? isPre, parseBool? asPre, parseInts 6 rest with
+    | some dis, some isPre, some asPre, some ([sy, sm, sd, ey, em, ed], "NA" :: na :: "ROOT" :: rt :: "N" :: n :: rest) =>
+      match parseInt? na, parseNat? rt, parseNat? n with
+      | some na, some rt, some n =>
+        match parseDLogs n rest with
+        | some (dls, rest) =>
+          let p : Pol := if pol = "a" then .apple else .chrome
+          let clients := dls.filter fun d => d.status == 1 || d.status == 2 || d.status == 3
+          let full := clients.all fun d => d.info.roots.isSome
+          let merged : List Nat := clients.flatMap fun d => d.info.roots.getD []
+          -- Distributor.addSomeChain: which root, if any, the compatibility filter is given
+          let rootSel : Option (Option (Nat × Bool)) :=
+            if dis then some none
+            else if rt ∈ merged then some (some (rt, true))
+            else if full then none
+            else some none
+          match rootSel with
+          | none => "badchain"
+          | some root =>
+            if isPre != asPre then "typemismatch"
+            else
+              let usable := (dls.map (·.info))
+              let cl := compatible na root usable
+              let months := Gen.Policy.lifetimeInMonths sy sm sd ey em ed
+              match policyCfg p months cl with
+              | none => "nogroups"
+              | some cfg => raceTail (cfg.map fun g => (g, g.logs)) rest
         | none => "bad-op"
-        | some nl =>
-          match parseLogs nl rest with
-          | some (ls, "D" :: d :: "R" :: rt :: re :: ns :: rest) =>
-            match parseNat? d, parseNat? rt, parseBool? re, parseNat? ns with
-            | some d, some rt, some re, some ns =>
-              match takeNats ns rest with
-              | some (scts, _) =>
-                let cfg : Cfg := gs.map (·.1)
-                let sess : Grp → List Log := fun g => match gs.find? (fun p => p.1.name == g) with
-                  | some p => p.2
-                  | none => []
-                let look (l : Log) := ls.find? (fun p => p.1 == l)
-                let sc : Scn := {
-                  run := ⟨cfg, sess⟩, ps := parallelNums cfg,
-                  script := fun l => match look l with
-                    | some p => (p.2.1, p.2.2.1)
-                    | none => (1, 1),
-                  deadline := d,
-                  contact := fun l => match look l with
-                    | some p => p.2.2.2
-                    | none => none,
-                  nContacts := (ls.filter fun p => p.2.2.2.isSome).length,
-                  obsTime := rt, obsErr := re, obsScts := sortNat scts }
-                let sim0 : Sim := { st := St.init sc.run, remaining := sess, fired := fun _ => 0, inflight := [], retAt := none, contacts := 0 }
-                -- groups with an empty session return at once; with no group at all GetSCTs returns at once
-                let start : Option Sim :=
-                  if (names cfg).isEmpty then (app sc sim0 .collect).map fun s => { s with retAt := some 0 }
-                  else loopChecks sc 0 sim0 ((dedup (names cfg)).filter fun g => sessLen sc g == 0)
-                match start with
-                | some s => if simulate sc s then "accept" else "reject"
-                | none => "reject-start"
-              | none => "bad-op"
-            | _, _, _, _ => "bad-op"
-          | _ => "bad-op"
+      | _, _, _ => "bad-op"
+    | _, _, _, _ => "bad-op"
+  | _ => "bad-op"
+
+/-- `pol c|a D6 sy sm sd ey em ed N n (id google)*`: months, then the groups `LogsByGroup` builds, or `err` -/
+def handlePol (ts : List String) : String :=
+  match ts with
+  | pol :: "D6" :: rest =>
+    match parseInts 6 rest with
+    | some ([sy, sm, sd, ey, em, ed], "N" :: n :: rest) =>
+      match parseNat? n with
+      | some n =>
+        match takeNats (2 * n) rest with
+        | some (xs, _) =>
+          let rec pairs : List Nat → List LogInfo
+            | id :: g :: r => ⟨id, g == 1, true, none, none⟩ :: pairs r
+            | _ => []
+          let p : Pol := if pol = "a" then .apple else .chrome
+          let months := Gen.Policy.lifetimeInMonths sy sm sd ey em ed
+          match policyCfg p months (pairs xs) with
+          | none => "err"
+          | some cfg =>
+            let gs := cfg.map fun g => joinSp [toString g.name, toString g.min, boolStr g.isBase, showNats (sortNat g.logs)]
+            joinSp (["groups", toString cfg.length] ++ gs)
+        | none => "bad-op"
+      | none => "bad-op"
+    | _ => "bad-op"
+  | _ => "bad-op"
+
+/-- `compat NA na ROOT rt|- isCA N n dlogs…`: ids of `LogList.Compatible` (sorted) -/
+def handleCompat (ts : List String) : String :=
+  match ts with
+  | "NA" :: na :: "ROOT" :: rt :: ca :: "N" :: n :: rest =>
+    match parseInt? na, parseBool? ca, parseNat? n with
+    | some na, some ca, some n =>
+      match parseDLogs n rest with
+      | some (dls, _) =>
+        let root : Option (Nat × Bool) := (parseNat? rt).map fun r => (r, ca)
+        showNats (sortNat ((compatible na root (dls.map (·.info))).map (·.id)))
+      | none => "bad-op"
+    | _, _, _ => "bad-op"
+  | _ => "bad-op"
+
+/-! ### `lockpair`: what the regenerated lock table predicts for two sets of functions running concurrently -/
+
+def insufficient (a : Gen.Policy.Access) : Bool := !a.ctor && (if a.write then a.mode != 2 else a.mode == 0)
+
+/-- `lockpair A k f… B k f…` : `race` iff some field is accessed from both sides, at least once as a write, and at
+least one of the two accesses does not hold the guard sufficiently -/
+def handleLockpair (ts : List String) : String :=
+  let rec take (n : Nat) (l : List String) : List String × List String := (l.take n, l.drop n)
+  match ts with
+  | "A" :: ka :: rest =>
+    match parseNat? ka with
+    | some ka =>
+      let (fa, rest) := take ka rest
+      match rest with
+      | "B" :: kb :: rest =>
+        match parseNat? kb with
+        | some kb =>
+          let (fb, _) := take kb rest
+          let ra := Gen.Policy.lockTable.filter fun a => fa.contains a.fn && !a.ctor
+          let rb := Gen.Policy.lockTable.filter fun a => fb.contains a.fn && !a.ctor
+          let hit := ra.any fun a => rb.any fun b =>
+            a.struct == b.struct && a.field == b.field && (a.write || b.write) && (insufficient a || insufficient b)
+          if hit then "race" else "norace"
+        | none => "bad-op"
       | _ => "bad-op"
+    | none => "bad-op"
   | _ => "bad-op"
 
 def handlePn (ts : List String) : String :=
@@ -420,6 +560,10 @@ def handle (st : Option StState) (line : String) : Option StState × String :=
   | "st" :: rest => handleSt st rest
   | "pn" :: rest => (st, handlePn rest)
   | "race" :: rest => (st, handleRace rest)
+  | "dist" :: rest => (st, handleDist rest)
+  | "pol" :: rest => (st, handlePol rest)
+  | "compat" :: rest => (st, handleCompat rest)
+  | "lockpair" :: rest => (st, handleLockpair rest)
   | _ => (st, "bad-op")
 
 def run (_ : List String) : IO UInt32 := do
